@@ -20,9 +20,8 @@ the original presentation of an input against
    hter   : hydrogens of the first residue of every chain H1/H2/H3 -> HT1/HT2/HT3 (CHARMM style),
    rotfar : rot90 with a translation that puts the structure at the limits of the PDB coordinate columns
             (x up to 9995 A, y down to -995 A),
-   crlf   : the same file with CR LF line ends and every line padded with blanks to 96 columns (parsing is
-            presentation too),
-   all2   : permrev + hv2 + rotfar + crlf together.
+   crlf   : the same file with CR LF line ends (parsing is presentation too),
+   all2   : permrev + hv2 + rotfar + CR LF line ends with every line padded with blanks to 96 columns, together.
 Every written ITP is parsed, canonicalised by the Lean function `canonTop` (driver op `canon`) and the canonical
 strings are compared; coordinates are compared modulo the motion.
 """
@@ -44,16 +43,22 @@ chk.extra['rule'] = (
     'runs); distinct = distinct (structure, option set, transformation, output file)')
 chk.extra['explanation'] = (
     'stage invariance proved on models; composition and runtime order-dependence by paired runs only. '
-    'PROVED in Lean: sqdist_isometry (squared distances invariant under x -> A x + t for every integer matrix with '
-    'A^T A = I; the 48 signed permutation matrices are such matrices), and through it rigid-motion invariance of the '
-    'elastic-network model (C15.run), of the distance-bond criterion (C10.DistCrit) and of the Go-contact distance '
-    '(C18.dist2), affine equivariance of bead placement (C09), order-independence of the elastic network (C15), of the '
-    'warning accounting (C08); the comparator canonTop is invariant under reordering of atom lines, consistent '
-    'renumbering of atom indices, reordering of interaction lines and reversal of reversible interactions '
+    'PROVED in Lean (VermouthProps/C11.lean, VermouthProps/C11_Stages.lean), each on the model named: sqdist_isometry '
+    '(squared distances invariant under x -> A x + t, A integer with A^T A = I); bond guessing C10.run: same bond SET for '
+    'every permutation of the atom list, complete result unchanged by a rigid motion; repair_graph C04.repairResidue: a '
+    'residue that is its block under any renaming / order / keys gets exactly the block\'s names, elements and bonds, two '
+    'such presentations agree; do_mapping C01.assemble: atom keys are read only through equality and the order of the lowest '
+    'keys of the matches (invariant under every renumbering keeping both; witness that exchanging two residues\' keys '
+    'exchanges the blocks); Go model C18: invariant under isometries, equivariant under renumberings increasing on the keys '
+    'that occur (witness for a non-monotone one); bead placement C09 then elastic network C15 under a rigid motion (composed on '
+    'lattice-valued bead positions; generic lemmas comp_invariant / comp_equivariant); order-independence of the elastic '
+    'network (C15) and of the warning accounting (C08); the comparator canonTop is invariant under reordering of atom lines, '
+    'consistent renumbering of atom indices, reordering of interaction lines and reversal of reversible interactions '
     '(canonTop_invariant) and identifies nothing else (canonTop_injective_mod_presentation, interRec_faithful). '
-    'EXPLORED only: that the real pipeline as executed by CPython (dict/set iteration order, PYTHONHASHSEED, float '
-    'round-off, KD-tree and VF2 tie-breaking, the composition of the stages) produces the same canonical topology for '
-    'the pairs of presentations that were actually run; the evidence counts those pairs. No statement is made about '
+    'EXPLORED only: that the real pipeline as executed by CPython (stages without a model, dict/set iteration order, '
+    'PYTHONHASHSEED, float round-off, KD-tree and VF2 tie-breaking, the composition of ALL stages) produces the same canonical '
+    'topology for the pairs of presentations that were actually run; the evidence counts those pairs and lists every class of '
+    'admitted difference with its count, largest deviation and bound (admitted_differences). No statement is made about '
     'inputs, options or hash seeds that were not run.')
 chk.lean(['VermouthProps.C11', 'VermouthProps.C11_Stages'], 'driver_c11')
 chk.trusted += [
@@ -65,9 +70,16 @@ chk.assumptions += [
     'identity of a particle inside a molecule type = (residue number, atom name) as written in the ITP; the '
     'charge-group column is presentation; comments are ignored except the group label preceding interaction lines',
     'reversible sections: bonds, constraints, pairs, angles, dihedrals (energy invariant under complete reversal)',
-    'rotgen: the moved file is a rigid image only up to 0.0005 A per coordinate, so real-valued parameters derived '
-    'from the geometry are compared with a tolerance (one unit of the last printed place, at least 2e-4) and an '
-    'elastic bond present in one run only is admitted iff its bead distance is within MARGIN of a cut-off',
+    'exact transformations (everything but rotgen): the two inputs are exactly the same structure; bead coordinates and '
+    'short prints may differ by ONE unit of the last printed place, full-precision prints by 1e-10 relative (float '
+    'round-off in another summation order / frame), nothing else',
+    'rotgen: the moved file is a rigid image only up to 0.0005 A per coordinate, so equilibrium lengths and angles are '
+    'compared with the propagated bound (2e-4 nm; 2e-4 + 1e-3 |v| degrees + dihedral conditioning), bead coordinates with '
+    '2.25e-3 A; every other token as in an exact transformation',
+    'an elastic bond present in one run only is admitted iff BOTH runs place its two beads within the margin of the same '
+    'cut-off (margin = 1e-6 nm + resolution of the written coordinates)',
+    'the order of chains / residues in the file is NOT varied: it is not presentation (C11.mapping_nonmonotone_changes_'
+    'block_order); CR LF line ends and trailing blanks are treated as presentation',
 ]
 
 M2PATH = os.path.join(REPO, 'bin', 'martinize2')
@@ -271,8 +283,10 @@ def far_translation(recs, A, rng):
     return [9995000 - max(p[0] for p in pts), -995000 - min(p[1] for p in pts), rng.randrange(-20000, 20001)]
 
 
-def text_crlf(text):
-    return ''.join(l.ljust(96) + '\r\n' for l in text.split('\n') if l)
+def text_crlf(text, pad):
+    """CR LF line ends; `pad`: every line padded with blanks to 96 columns first (otherwise the CR directly follows the
+    last column of the record)"""
+    return ''.join((l.ljust(96) if pad else l) + '\r\n' for l in text.split('\n') if l)
 
 
 def d2(a, b):
@@ -984,16 +998,17 @@ QUICK = [
 
 def thorough_matrix():
     m = []
-    allt = ['perm', 'perm#2', 'permrev', 'permh', 'hren', 'hname', 'hv2', 'hter', 'rot90', 'rotfar', 'rotgen', 'all',
-            'all2', 'crlf']
+    core = ['perm', 'permrev', 'hren', 'hv2', 'rot90', 'rotfar', 'rotgen', 'all', 'all2']
+    more = ['perm#2', 'permh', 'hname', 'hter', 'crlf']
     for s in T0:
         for o in OPTSETS:
             seeds = [0, 1, 4242] if o in ('m3-elastic-cys', 'm22') else []
-            m.append((s, o, allt, seeds))
+            m.append((s, o, core + (more if o in ('m3-elastic-cys', 'm3-nt', 'm22', 'eln21-ter') else []), seeds))
     for s in T1:
-        for o in ('m3-elastic-cys', 'm3-ss', 'm22-cys', 'm3-posres'):
-            m.append((s, o, ['perm', 'permrev', 'hren', 'hv2', 'rot90', 'rotfar', 'rotgen', 'all', 'all2'],
-                      [7] if o == 'm3-elastic-cys' else []))
+        for o in ('m3-elastic-cys', 'm22-cys'):
+            m.append((s, o, ['perm', 'hv2', 'rotfar', 'rotgen', 'all2'], [7] if o == 'm3-elastic-cys' else []))
+        for o in ('m3-ss', 'm3-posres'):
+            m.append((s, o, ['all'], []))
     return m
 
 
@@ -1103,8 +1118,8 @@ def plan_group(struct, optname, optargs, kinds, seeds, tag=''):
         trecs, motion, desc = make_transform(kind, recs, trng)
         text = write_pdb(trecs)
         if base_kind(kind) in ('crlf', 'all2'):
-            text = text_crlf(text)
-            desc['line_ends'] = 'CR LF, lines padded to 96 columns'
+            text = text_crlf(text, pad=base_kind(kind) == 'all2')
+            desc['line_ends'] = 'CR LF' + (', lines padded to 96 columns' if base_kind(kind) == 'all2' else '')
         plans.append({'cid': '%s|%s|%s%s' % (struct, optname, kind, tag), 'struct': struct, 'optname': optname,
                       'argv': argv, 'kind': base_kind(kind), 'bkey': bkey, 'pdb': text, 'motion': motion,
                       'desc': desc})
